@@ -24,3 +24,10 @@ _p("C19", "other",
    "is checked as a static obligation on the real AST. The geometric claim itself (exact clipping, tight bounds) rests on the assumed pathops "
    "contract and is sampled by a bounded component (labelled bounded).",
    [PATHOPS, LXML, CPY])
+
+_p("C09", "proof",
+   "Every rewrite callback of svg_types.py (explicit lines, relative/absolute, snapping, S/T expansion, arc replacement glue, move), "
+   "_next_pos, _move_endpoint and the rect/ellipse/circle/line outlines are executed symbolically from /repo's source for each of the 20 "
+   "commands with symbolic arguments and pen, and compared with the SVG 8.3 path semantics; SVGPath.walk lifts the per-command results to "
+   "sequences of any length by a loop invariant. Polygon/polyline text and the exhaustive short-sequence enumeration are a bounded cross-check.",
+   [BRIDGE, CPY, MATH])
